@@ -156,7 +156,8 @@ def check_calculate_driver(prop: str, res: Result, repo: Repo, want=("R-SKIP", "
                     res.fail("R-SKIP", finding(prop, "R-SKIP", calc, loop, "the active index is not set before the reading is calculated", construct="calculate: " + " -> ".join(names)))
                 # the path that calculates must be the one on which the present-test failed
                 tests = [item for item in p if isinstance(item, tuple) and item[0] == "if"]
-                guard_ok = any(_is_present_test(item[1].test, lv) and item[2] is False for item in tests)
+                aliases = {ast.unparse(x.targets[0]): ast.unparse(x.value) for x in p if isinstance(x, ast.Assign) and len(x.targets) == 1 and isinstance(x.targets[0], ast.Name)}
+                guard_ok = any(_present_polarity(item[1].test, lv, aliases) is (not item[2]) for item in tests)
                 if guard_ok:
                     res.ok("R-SKIP", {"site": f"{calc.where}", "why": "readings are written once: _calculate_reading runs only when indicators.get(name) is None"}, nontrivial="calculate:skip")
                 else:
@@ -179,12 +180,28 @@ def check_calculate_driver(prop: str, res: Result, repo: Repo, want=("R-SKIP", "
             res.fail("R-SUBS", finding(prop, "R-SUBS", calc, fn, "calculate() must run prior sub-indicators before and post sub-indicators after its own sweep", construct="calculate: " + ",".join(seq)))
 
 
-def _is_present_test(test: ast.AST, lv: str) -> bool:
-    """`self.candles[<lv>].indicators.get(self.name) is not None`"""
-    if isinstance(test, ast.Compare) and len(test.ops) == 1 and isinstance(test.ops[0], ast.IsNot) and _const(test.comparators[0]) is None and isinstance(test.comparators[0], ast.Constant):
+def _present_polarity(test: ast.AST, lv: str, aliases=None) -> Optional[bool]:
+    """True if `test` holds exactly when candle <lv> already has a (non-None) top-level reading of this indicator, False if it holds
+    exactly when it has none, None if it is some other test.  Forms: `self.candles[lv].indicators.get(self.name) is [not] None`, also through a
+    local alias of the candle."""
+    aliases = aliases or {}
+    flipped = False
+    while isinstance(test, ast.UnaryOp) and isinstance(test.op, ast.Not):
+        test, flipped = test.operand, not flipped
+    if isinstance(test, ast.Compare) and len(test.ops) == 1 and isinstance(test.ops[0], (ast.IsNot, ast.Is)) and isinstance(test.comparators[0], ast.Constant) and test.comparators[0].value is None:
         l = test.left
-        return isinstance(l, ast.Call) and call_name(l) == "get" and ast.unparse(l.func.value) == f"self.candles[{lv}].indicators" and [ast.unparse(a) for a in l.args] == ["self.name"]
-    return False
+        if isinstance(l, ast.Call) and call_name(l) == "get" and [ast.unparse(a) for a in l.args] == ["self.name"] and isinstance(l.func, ast.Attribute) and isinstance(l.func.value, ast.Attribute) and l.func.value.attr == "indicators":
+            owner = l.func.value.value
+            txt = ast.unparse(owner)
+            txt = aliases.get(txt, txt)
+            if txt == f"self.candles[{lv}]":
+                pol = isinstance(test.ops[0], ast.IsNot)
+                return pol != flipped
+    return None
+
+
+def _is_present_test(test: ast.AST, lv: str) -> bool:
+    return _present_polarity(test, lv) is True
 
 
 def check_append_order(prop: str, res: Result, repo: Repo, parts=("indicator", "hexital", "manager")):
